@@ -40,6 +40,7 @@ let op_of_token (xs : z list) (tok : string) : op =
   | ["al"; ys] -> AssignIl (h ys)
   | ["as"; ys] -> AssignStr (h ys)
   | ["ar"; ys] -> AssignRange (h ys)
+  | ["ars"; ys] -> AssignRange (h ys)      (* the same call with a single-pass input range *)
   | ["clr"] -> Clear
   | _ -> failwith ("c13: bad op " ^ tok)
 
